@@ -84,6 +84,7 @@ class Impl:
         self.res = universe(registry)[:n]
         self.idx = {r: i for i, r in enumerate(self.res)}
         self.queues: list[RecQ] = []
+        self.held = [set(), set()]   # set objects the "caller" keeps and re-uses / mutates
         registry._reset_registries()
 
     # -- observation
@@ -112,12 +113,30 @@ class Impl:
             "queues": [None if self.registered(i) is None else self.snap_q(self.registered(i)) for i in range(self.n)],
         }
 
+    def container(self, op):
+        """the `resources` argument of subscribe_only_to in the shape the op asks for"""
+        rs = [self.res[x] for x in op["rs"]]
+        via = op.get("via", "list")
+        if via == "tuple":
+            return tuple(rs)
+        if via == "set":
+            return set(rs)
+        if via == "frozenset":
+            return frozenset(rs)
+        if via in ("h0", "h1"):       # a set object the caller re-uses across calls
+            h = self.held[int(via[1])]
+            h.clear()
+            h.update(rs)
+            return h
+        return rs
+
     # -- one operation; returns the canonical outcome
     def apply(self, op):
         g, R = self.reg, self.res
         k = op["op"]
         marks = [(q, len(q.puts)) for q in self.queues]
         before_q = self.registered(op["r"]) if k == "deregister" else None
+        self.last_new, self.last_released = {}, None
         out = None
         guard = k in ("subscribe", "only")
         if guard:
@@ -132,7 +151,10 @@ class Impl:
             elif k == "subscribe":
                 g.subscribe(R[op["s"]], R[op["r"]])
             elif k == "only":
-                g.subscribe_only_to(R[op["s"]], [R[x] for x in op["rs"]])
+                g.subscribe_only_to(R[op["s"]], self.container(op))
+            elif k == "mutate":      # the caller changes a set it once handed over; not a registry operation
+                h = self.held[op["h"]]
+                (h.add if op["add"] else h.discard)(R[op["x"]])
             elif k == "unsubscribe":
                 g.unsubscribe(R[op["s"]], R[op["r"]])
             elif k == "notify":
@@ -254,6 +276,8 @@ def _oracle_history(registry, n, ops, trace):
                     return i, "a subscription that closes a cycle was not refused"
             if out["k"] in ("cycle", "keyError") and after != before:
                 return i, f"a refused {k} ({out['k']}) changed the registry"
+            if k == "mutate" and after != before:
+                return i, "the registry changed when a caller mutated a set it had passed to subscribe_only_to"
             # deliveries
             if k in ("register", "notify", "deregister"):
                 r = op["r"]
@@ -349,8 +373,17 @@ def gen_history(r):
         elif x < 0.46:
             a = res()
             rs = [res() for _ in range(r.choice([0, 1, 1, 2, 2, 3, 4]))]
-            ops.append({"op": "only", "s": a, "rs": rs})
+            via = r.choice(["list", "list", "tuple", "set", "frozenset", "h0", "h0", "h1"])
+            ops.append({"op": "only", "s": a, "rs": rs, "via": via})
             edges = {(s, y) for (s, y) in edges if s != a} | {(a, y) for y in rs}
+            if via[0] == "h":
+                y = r.random()
+                if y < 0.3:      # the same set object handed to a second subscriber
+                    b = res()
+                    ops.append({"op": "only", "s": b, "rs": rs, "via": via})
+                    edges = {(s, z) for (s, z) in edges if s != b} | {(b, z) for z in rs}
+                elif y < 0.6:    # … or mutated by the caller afterwards
+                    ops.append({"op": "mutate", "h": int(via[1]), "x": res(), "add": r.random() < 0.6})
         elif x < 0.56:
             if edges and r.random() < 0.7:
                 a, b = r.choice(sorted(edges))
@@ -392,19 +425,21 @@ def alphabet3():
         A.append({"op": "kill", "r": r})
         A.append({"op": "deregister", "r": r, "t": 2})
         A.append({"op": "only", "s": r, "rs": []})
-        A.append({"op": "only", "s": r, "rs": [x for x in range(3) if x != r]})
+        A.append({"op": "only", "s": r, "rs": [x for x in range(3) if x != r], "via": "set"})
+        A.append({"op": "only", "s": r, "rs": [(r + 1) % 3], "via": "h0"})
     for s in range(3):
         for r in range(3):
             if s != r:
                 A.append({"op": "subscribe", "s": s, "r": r})
                 A.append({"op": "unsubscribe", "s": s, "r": r})
     A.append({"op": "subscribe", "s": 0, "r": 0})
+    A.append({"op": "mutate", "h": 0, "x": 0, "add": True})
     return A
 
 
 def mentions(op):
     out = []
-    for k in ("s", "r"):
+    for k in ("s", "r", "x"):
         if k in op:
             out.append(op[k])
     out += op.get("rs", [])
@@ -543,7 +578,7 @@ def run(tier: str) -> int:
              "duplicates, unsubscribe of present and absent edges, notify, kill-then-notify, "
              "deregister-then-subscribe, verbatim repetitions) plus every sequence of exactly "
              f"{3 if tier == 'quick' else 4} ops (hence every shorter one as a prefix) over 3 resources from a "
-             "31-op alphabet, up to renaming of resources; non-trivial = at least three different kinds of "
+             "35-op alphabet, up to renaming of resources; non-trivial = at least three different kinds of "
              "outcome (ok / cycle / keyError / delivery / skipped shut-down subscriber / released) in one history; "
              "distinct by (universe size, op list)",
     )
